@@ -242,6 +242,12 @@ class FnTaint:
                 return depth < 3 and any(k_ == "assign" and p_[2][0] in ("use", "cast") and any(o3[0] in ("c", "m") and _same(o3, depth + 1) for o3 in mirg.rvalue_operands(p_[2]))
                                          for _b, k_, p_ in self.du.defs.get(plocal(o2[1]), []))
             return plocal(o2[1]) in anc
+        def _ref_places(loc):
+            out = set()
+            for _b, k_, p_ in self.du.defs.get(loc, []):
+                if k_ == "assign" and p_[2][0] in ("ref", "refmut") and pproj(p_[2][1]):
+                    out.add((plocal(p_[2][1]), tuple(x_ for x_ in pproj(p_[2][1]) if isinstance(x_, int))))
+            return out
         blocks = f.mir["blocks"]
         for i, b in enumerate(blocks):
             t = b["t"]
@@ -305,6 +311,9 @@ class FnTaint:
                                 continue
                             if al_ in anc:
                                 return "dominating check call (bb%d)" % i
+                            if _ref_places(al_) & _ref_places(l):
+                                # `if !v.field.is_empty() { v.field[0] }`: both borrows are of the same field place
+                                return "dominating check call on the same field (bb%d)" % i
                             a4, _, _ = self.du.slice_back(al_, depth=4)
                             if rel(a4 - set(range(1, f.mir["argc"] + 1)), anc):
                                 return "dominating check call on a related value (bb%d)" % i
